@@ -9,6 +9,7 @@ CONSTANTS
   MaxH = 2
   MaxTx = 2
   MaxCoins = 2
+  Kinds = {"xfer", "dep", "wd", "cx", "call", "tok", "fwd", "sst", "pay"}
 INVARIANTS Conservation TokenConservation NoNegative SpentOnce SpentMarked
 PROPERTIES RejectedIsNoOp NonceCountsExecuted
 VIEW View
